@@ -361,6 +361,16 @@ func ruleErrMask(c *Ctx) {
 			break
 		}
 	}
+	firstJump := -1
+	for i, in := range f5.Instrs {
+		if in.Label == "" && strings.HasPrefix(in.Op, "J") {
+			firstJump = i
+			break
+		}
+	}
+	if firstJump >= 0 && loadIdx > firstJump {
+		loadIdx = -1 // some path (e.g. inputs shorter than one block) skips the load
+	}
 	c.Check(loadIdx >= 0 && loadIdx == firstDef && (loopAt < 0 || loadIdx < loopAt), "avx512:errmask:load", f5.File, "the accumulated mask is loaded from *error_mask before the block loop",
 		"the AVX-512 driver does not start from the caller's accumulated error mask (first write of the mask register is not `KMOVQ (error_mask), K`): each kernel call forgets control characters found by earlier calls", "a raw control byte inside a string in a block handled by an earlier kernel call than the last (document length % 64 != 0)")
 	// exit: every path to RET stores the mask back
